@@ -29,7 +29,7 @@ import (
 )
 
 func init() {
-	register(target{name: "kv.setraw", per: 120, quick: 16, thorough: 1200, run: runKVSetRaw})
+	register(target{heavy: true, name: "kv.setraw", per: 120, quick: 16, thorough: 1200, run: runKVSetRaw})
 	register(target{name: "settings.delete", per: 300, quick: 8, thorough: 800, run: runSettingsDelete})
 	register(target{name: "pubsub", per: 150, quick: 16, thorough: 1600, run: runPubSub})
 }
